@@ -10,7 +10,7 @@
    addresses; [saved_bytes s i] are the bytes the save command writes for transfer number i; [s_fs s] is the
    file system (path -> content); [s_pub s] the published tree items. *)
 From Coq Require Import List NArith Bool.
-From AdltV Require Import Base.Res Base.MachInt FileTransfer.Ft FileTransfer.FtProofs FileTransfer.FtRecover FileTransfer.FtSave FileTransfer.FtReannounce Exec.C17.
+From AdltV Require Import Base.Res Base.MachInt FileTransfer.Ft FileTransfer.FtProofs FileTransfer.FtRecover FileTransfer.FtSave FileTransfer.FtReannounce FileTransfer.FtLabel Exec.C17.
 Import ListNotations.
 Open Scope N_scope.
 
@@ -32,6 +32,68 @@ Theorem C17_inorder_complete_exact : forall c fs pre mflst post k f chunks s ret
               (c_allow_save c = true -> concat chunks <> [] -> saved_bytes s i = Some (concat chunks)) /\
               nth_error (map (fun t => (t_key t, t_state t)) (s_pub s)) i = Some (k, Complete).
 Proof. exact inorder_complete_exact. Qed.
+
+(* (1L) The contract with the lifecycle stage.  The key of a transfer is (ecu, LIFECYCLE, serial) and the lifecycle id of a
+   message is written by the stage that runs directly before the plugin (parse_lifecycles_buffered_from_stream, in `adlt
+   convert` and in the remote server).  (1) read with the key taken apart: [flst_content], [flda_content], [content_key] are what
+   a message SAYS (ecu, serial, package number and payload, announced values) -- they do not depend on its lifecycle field --
+   and [m_lc] is the LABEL it carries.  [InOrderU c e sr lc 1 chunks post]: relative to (e, sr), [post] consists of messages
+   about something else, messages about (e, sr) under ANOTHER label (for the plugin: another key), duplicates and the packages
+   1, 2, .. in order, the latter two all carrying the label lc of the announcement.  Then the transfer is Complete, reported
+   Complete and saved bit-exactly.  The hypothesis "all packages of the transfer carry the announcement's label" is what the
+   plugin needs from the lifecycle stage: every message forwarded with its final lifecycle id. *)
+Theorem C17_inorder_complete_exact_uniform_lifecycle : forall c fs pre mflst post e sr lc f chunks s rets,
+  flst_content c mflst = Some (e, sr, f) -> m_lc mflst = lc ->
+  chunks <> [] -> N.of_nat (length chunks) = f_nr f -> chunks_ok (f_bs f) (f_nr f) 1 chunks ->
+  (f_size f = 0 \/ f_size f = lenN (concat chunks)) ->
+  InOrderU c e sr lc 1 chunks post ->
+  run c (init_st fs) (pre ++ mflst :: post) = Ok (s, rets) ->
+  exists i t, nth_error (s_transfers s) i = Some t /\ t_key t = (e, lc, sr) /\ t_state t = Complete /\ t_name t = f_name f /\
+              t_size t = lenN (concat chunks) /\
+              (c_allow_save c = true -> concat chunks <> [] -> saved_bytes s i = Some (concat chunks)) /\
+              nth_error (map (fun t => (t_key t, t_state t)) (s_pub s)) i = Some ((e, lc, sr), Complete).
+Proof. exact inorder_uniform. Qed.
+
+(* (1L') ... and the hypothesis is needed for every single package: if every copy of package j (1 <= j <= announced number)
+   that follows the announcement carries another label -- say the id of an interim lifecycle that was merged away -- the
+   package is not counted for the transfer the announcement opened: that transfer is not Complete and has nothing to save,
+   whatever else the log holds (all other packages in order, duplicates, the end marker, other transfers). *)
+Theorem C17_mislabelled_package_not_counted : forall c fs pre m post e sr lc f j s rets,
+  flst_content c m = Some (e, sr, f) -> m_lc m = lc -> 1 <= j -> j <= f_nr f ->
+  (forall x raw, In x post -> flda_content c x = Some (e, sr, (j, raw)) -> m_lc x <> lc) ->
+  run c (init_st fs) (pre ++ m :: post) = Ok (s, rets) ->
+  exists s0 r0, run c (init_st fs) pre = Ok (s0, r0) /\
+  exists t, nth_error (s_transfers s) (length (s_transfers s0)) = Some t /\ t_key t = (e, lc, sr) /\ t_name t = f_name f /\
+            t_state t <> Complete /\ saved_bytes s (length (s_transfers s0)) = None.
+Proof. exact mislabelled_not_complete. Qed.
+
+(* The clause "all packages in order => complete" read MODULO the lifecycle field is refuted by the model (and by the code: the
+   history of seeded change C17-7): announcement of 4+4+2 bytes, packages 1, 2, 3 in order, end marker, all from ecu 7 with
+   serial 4711.  Labelled 3,3,3,3,3 the hypotheses of (1L) hold and the file is delivered; labelled 3,3,4,3,3 (package 2
+   forwarded with the id of a lifecycle that was merged into 3) the same messages end "Incomplete, missed package 2" and
+   nothing can be saved.  The lifecycle labelling is a genuine input of the property, not a detail of the key. *)
+Example C17_inorder_modulo_lifecycle_refuted :
+  let c := mkCfg true true false None None None None in
+  let ext n := Some (1, 2, 65, n) in
+  let ann l := expand_msg (7, l, ext 8, BFlst false 2 4711 [97] 10 3 4) in
+  let pk l j d := expand_msg (7, l, ext 5, BFlda false 2 6 4711 j TI_RAWD d) in
+  let fin l := expand_msg (7, l, ext 3, BFlfi false 2 4711) in
+  let chunks := [[48; 49; 50; 51]; [52; 53; 54; 55]; [56; 57]] in
+  let post l2 := [pk 3 1 [48; 49; 50; 51]; pk l2 2 [52; 53; 54; 55]; pk 3 3 [56; 57]; fin 3] in
+  map (set_lc 0) (ann 3 :: post 4) = map (set_lc 0) (ann 3 :: post 3) /\
+  (exists f s rets, flst_content c (ann 3) = Some (7, 4711, f) /\ f_nr f = 3 /\ InOrderU c 7 4711 3 1 chunks (post 3) /\
+     run c (init_st []) (ann 3 :: post 3) = Ok (s, rets) /\ saved_bytes s 0 = Some (concat chunks)) /\
+  (exists s rets t, run c (init_st []) (ann 3 :: post 4) = Ok (s, rets) /\ s_transfers s = [t] /\
+     t_state t = Incomplete /\ t_next t = 2 /\ saved_bytes s 0 = None).
+Proof.
+  cbv zeta. split; [vm_compute; reflexivity|]. split.
+  - eexists. eexists. eexists. split; [vm_compute; reflexivity|]. split; [vm_compute; reflexivity|]. split.
+    + eapply iu_pkg; [vm_compute; reflexivity|reflexivity|]. eapply iu_pkg; [vm_compute; reflexivity|reflexivity|].
+      eapply iu_pkg; [vm_compute; reflexivity|reflexivity|]. apply iu_done.
+    + split; [vm_compute; reflexivity|]. vm_compute. reflexivity.
+  - eexists. eexists. eexists. split; [vm_compute; reflexivity|]. split; [vm_compute; reflexivity|].
+    vm_compute. repeat split; reflexivity.
+Qed.
 
 (* (1') The same without announcement (single fault "FLST lost"): no earlier message addressed the key; package 1,
    then packages 2..n in this order, all of the size of the first one (interleaved with messages that do not
@@ -318,6 +380,9 @@ Proof.
 Qed.
 
 Print Assumptions C17_inorder_complete_exact.
+Print Assumptions C17_inorder_complete_exact_uniform_lifecycle.
+Print Assumptions C17_mislabelled_package_not_counted.
+Print Assumptions C17_inorder_modulo_lifecycle_refuted.
 Print Assumptions C17_recovered_complete_exact.
 Print Assumptions C17_complete_implies_exact.
 Print Assumptions C17_complete_needs_every_package.
